@@ -95,8 +95,10 @@ run_program (OrcProgram *p, const char *path, const char *dir)
   exmap = mmap (NULL, 3 * PG, PROT_READ | PROT_WRITE, MAP_PRIVATE | MAP_ANONYMOUS, -1, 0);
   memset (exmap, 0x6b, 3 * PG);
   ex = (OrcExecutor *) (exmap + PG);
-  for (ni = 0; ni < 7; ni++) for (mi = 0; mi < (p->is_2d ? 2 : 1); mi++) {
-    int n = p->constant_n ? p->constant_n : ns[ni], m = p->is_2d ? (mi ? 3 : 1) : 1;
+  /* 2-D programs: one row, three rows, and no row at all (m = 0 leaves through the early exit of the
+   * outer loop, which has to undo the prologue like every other exit) */
+  for (ni = 0; ni < 7; ni++) for (mi = 0; mi < (p->is_2d ? 3 : 1); mi++) {
+    int n = p->constant_n ? p->constant_n : ns[ni], m = p->is_2d ? (mi == 2 ? 0 : mi ? 3 : 1) : 1;
     uint8_t *arr[ORC_N_VARIABLES] = { 0 };
     size_t asz[ORC_N_VARIABLES] = { 0 };
     uint64_t sums[ORC_N_VARIABLES];
